@@ -32,7 +32,9 @@ func CreateUnknownBox(name string, size uint64, payload []byte) *UnknownBox {
 
 // DecodeUnknownSR - decode an unknown box
 func DecodeUnknownSR(hdr BoxHeader, startPos uint64, sr bits.SliceReader) (Box, error) {
-	return &UnknownBox{hdr.Name, hdr.Size, sr.ReadBytes(hdr.payloadLen())}, sr.AccError()
+	// The box is written with a compact header, so a 16-byte largesize header must not be counted in size
+	size := boxHeaderSize + uint64(hdr.payloadLen())
+	return &UnknownBox{hdr.Name, size, sr.ReadBytes(hdr.payloadLen())}, sr.AccError()
 }
 
 // Type - return box type
